@@ -453,5 +453,63 @@ def run(ctx):
     r4_r5(ctx, F)
     import funnel
     funnel.check(ctx, F, 'C18-R6')
+    r7_noop_arms_are_unread(ctx, F)
     ctx.not_decided('"a setter documented as irrelevant for a mode leaves that mode\'s result untouched" beyond the no-op arms '
                     '(needs a per-mode read-set analysis through the attribute builder)')
+
+
+# ---- R7: a setting a mode's builder cannot set is a setting that mode never reads (seed C18-8: taiko difficulty starts reading get_lazer(), `Performance::lazer` stays a no-op for taiko)
+FUNNEL = 'model::beatmap::attributes::BeatmapAttributesBuilder::difficulty'
+
+
+def mode_getters(F, mode):
+    """Difficulty::get_* consulted by the mode's own code: reachable from its entries without crossing into another mode's modules; the attribute builder's funnel
+    reads every slot for every mode (its mode-relevance is decided by C17) and is left out"""
+    import callgraph
+    cg = callgraph.of(F)
+    roots = ['%s::difficulty::difficulty' % mode, '%s::strains::strains' % mode] + [
+        f.path for f in F.fns if (f.self_adt or '').startswith(mode + '::') and ('Gradual' in (f.self_adt or '') or (f.self_adt or '').endswith('Performance'))]
+    others = tuple(m + '::' for m in MODES if m != mode) + tuple('<' + m + '::' for m in MODES if m != mode)
+    out = {}
+    for p in cg.reachable_from(set(roots)):
+        f = F.fn(p)
+        if f is None or p == FUNNEL or p.startswith(others):
+            continue
+        for bi, t in f.calls():
+            c = t['func'].get('path') or ''
+            if c.startswith(DIFF + '::get_'):
+                out.setdefault(c.split('::')[-1], set()).add(p)
+    return out
+
+
+def r7_noop_arms_are_unread(ctx, F):
+    """R2 allows `Performance::<setting>` to be a no-op for a mode exactly when that mode's builder has no such setter.  That is only sound while the mode never reads the
+    setting: the same value handed in through `.difficulty(Difficulty::new().<setting>(..))` must not change the result either.  For every no-op arm the mode's own code
+    (difficulty, strains, gradual, performance; other modes' modules and the attribute builder's funnel aside) does not call `Difficulty::get_<setting>`."""
+    methods = [m for m in F.methods(adt=PERF, inherent_only=True) if m.name not in NOT_BUILDERS and m.is_pub
+               and m.j['output'].get('adt') == PERF and m.j['inputs'] and m.j['inputs'][0].get('adt') == PERF]
+    getters = {mode: mode_getters(F, mode) for mode in MODES}
+    n = 0
+    for m in methods:
+        g = 'get_' + m.name
+        if F.method(DIFF, g, inherent_only=True) is None:
+            continue
+        vals = per_variant_values(F, m)
+        if not vals:
+            continue                                   # shape problems are R2's
+        for label, val in vals.items():
+            for variant in label.split('|'):
+                mode = variant.lower()
+                if mode not in MODES or val is None:
+                    continue
+                v = prov.strip(val, names=set())
+                rewrapped = v[0] == 'agg' and v[2] == PERF and v[3] == variant and \
+                    as_param_path(prov.strip(v[4].get('0', ('unknown',)), names=set()), through_calls=False) == (1, ('as ' + variant, '0'))
+                if not (as_param_path(v) == (1, ()) or rewrapped):
+                    continue
+                n += 1
+                readers = sorted(getters[mode].get(g, ()))
+                ctx.require(not readers, 'C18-R7', '%s:%s:unread' % (m.name, variant), 'Performance::%s is a no-op for %s and no %s code reads Difficulty::%s' % (m.name, variant, mode, g), m.where(),
+                            bad='Performance::%s drops the value for %s, but %s reads Difficulty::%s: the setting changes %s results when it arrives inside a Difficulty and is '
+                                'silently lost when it is set on the builder' % (m.name, variant, (readers or ['-'])[0], g, mode))
+    ctx.floor('C18-R7', n, 5, 'no-op arms of Performance settings (lazer: taiko, catch; hardrock_offsets: osu, taiko, mania; ..)')
